@@ -493,7 +493,44 @@ def pair_oracle(c, maxspan=None):
 
 
 FORMS = ["lists", "tuples", "strided", "reversed", "byteswapped", "readonly", "scalar-args", "scale-forms", "ids-i4", "ids-tuple",
-         "rev-strided", "minid-only", "maxid-only", "minmax-without-ids", "getbins-explicit", "verbose", "fresh-object"]
+         "rev-strided", "minid-only", "maxid-only", "minmax-without-ids", "getbins-explicit", "verbose", "fresh-object",
+         "rev-i4", "rev-be", "rev-list", "rev-f8", "rev-readonly-i4-strided"]
+
+
+def in_fork(f):
+    """run f() in a forked child and return its (JSON-able) result: a call that crashes the interpreter (the C++ code reading
+    reverse indices of a foreign dtype as native int64, fixes/C13/0004) becomes an exception here, i.e. a failing input with a
+    replay, instead of killing the check process"""
+    import signal
+    import sys
+    rd, wr = os.pipe()
+    sys.stdout.flush()
+    pid = os.fork()
+    if pid == 0:
+        code = 0
+        try:
+            os.close(rd)
+            try:
+                msg = json.dumps(["ok", f()])
+            except Exception as e:  # noqa
+                msg = json.dumps(["err", "%s: %s" % (type(e).__name__, str(e)[:200])])
+            with os.fdopen(wr, "w") as w:
+                w.write(msg)
+        except BaseException:  # noqa
+            code = 1
+        os._exit(code)
+    os.close(wr)
+    with os.fdopen(rd) as r:
+        data = r.read()
+    _, status = os.waitpid(pid, 0)
+    if os.WIFSIGNALED(status):
+        raise RuntimeError("the call crashed the interpreter (signal %d: %s)" % (os.WTERMSIG(status), signal.Signals(os.WTERMSIG(status)).name))
+    if not data:
+        raise RuntimeError("the call ended the interpreter without a result (exit status %d)" % os.WEXITSTATUS(status))
+    tag, val = json.loads(data)
+    if tag != "ok":
+        raise RuntimeError("in forked call: " + val)
+    return val
 
 
 def _strided(a):
@@ -591,6 +628,25 @@ def bincount_form(form, h, depth, rmin, rmax, nbin, ra1, dec1, ra2, dec2, sc, id
         return h.bincount(rmin, rmax, nbin, *pos, scale=sc, htmid2=id2.astype("i4"), htmrev2=rev, **kw)
     if form == "ids-tuple":
         return h.bincount(rmin, rmax, nbin, *pos, scale=sc, htmid2=tuple(int(x) for x in id2), htmrev2=rev, minid=int(mn), **kw)
+    if form in ("rev-i4", "rev-be", "rev-list", "rev-f8", "rev-readonly-i4-strided"):
+        # precomputed reverse indices in other dtypes / containers (same values); htm.py converts them since fixes/C13/0004.
+        # Before that fix the C++ code read them as native int64 garbage: run in a forked child
+        if form == "rev-i4":
+            r2 = rev.astype("i4")
+        elif form == "rev-be":
+            r2 = rev.astype(">i8")
+        elif form == "rev-list":
+            r2 = [int(x) for x in rev]
+        elif form == "rev-f8":
+            r2 = rev.astype("f8")
+        else:
+            r2 = _strided(rev.astype("i4"))
+            r2.flags.writeable = False
+        variants = [dict(htmid2=id2, htmrev2=r2, minid=mn, maxid=mx), dict(htmid2=id2, htmrev2=r2), dict(htmrev2=r2)]
+        outs = in_fork(lambda: [[int(x) for x in h.bincount(rmin, rmax, nbin, *pos, scale=sc, **v, **kw)] for v in variants])
+        if any(o != outs[0] for o in outs):
+            raise RuntimeError("bincount: reverse indices as %s give different counts for different precomputed-argument sets: %s" % (form, outs))
+        return np.array(outs[0])
     if form == "rev-strided":
         return h.bincount(rmin, rmax, nbin, *pos, scale=sc, htmid2=_strided(id2), htmrev2=_strided(rev), **kw)
     if form == "minid-only":
